@@ -659,10 +659,18 @@ def _close_forms(a, b, tol=1e-5):
     return True
 
 
+def _const_or_none(v):
+    if isinstance(v, int):
+        return v
+    c = v.const_value() if hasattr(v, "const_value") else None
+    return int(c) if c is not None and c.denominator == 1 else None
+
+
 def r3_hydrogen_value(ctx):
     """Value numbering of the residue loop of ks_assign_hydrogens: H = N + 0.1 (C' - O')/|C' - O'| with C', O' of the previous residue, or H = N when they are missing; nothing is stored for
     a skipped residue.  The conditions of each path are decoded from their values (`pc < 0 || po < 0` taken and `pc >= 0 && po >= 0` not taken are the same fact)."""
     from ..symval import SymExec, State, Ptr, Vec, Unsupported, elementary_facts, has_fact
+    from .. import symval as _SV
     from ..poly import Poly, Rat
     cf = C.get(ctx.repo)
     fn = cf.function(GEO, "ks_assign_hydrogens")
@@ -681,6 +689,30 @@ def r3_hydrogen_value(ctx):
     if rv is None or lb is None:
         raise AnalysisError("ks_assign_hydrogens: residue loop variable not recognised")
     ex = SymExec(cf, GEO)
+    # where the output pointer stands when the loop is entered (the code before the loop may have advanced it past residue 0)
+    body_all = C.kids(C.body_of(fn))
+    i_loop = next((i_ for i_, x_ in enumerate(body_all) if any(y_ is loops[0] for y_ in C.walk(x_))), None)
+    e0 = None
+    if i_loop is not None:
+        sp = State()
+        sp.env[hco] = Ptr("H", 0)
+        for p_ in (xyz, nco, skip):
+            sp.env[p_] = Ptr(p_, 0)
+        try:
+            pre_ = ex.run(body_all[:i_loop], sp)
+            offs0 = {repr(getattr(o_.env.get(hco), "off", None)) for o_ in pre_}
+            if len(offs0) == 1 and isinstance(pre_[0].env.get(hco), Ptr):
+                e0 = _const_or_none(pre_[0].env.get(hco).off)
+        except Unsupported:
+            e0 = None
+    first = None
+    if init is not None and init.get("kind") == "DeclStmt":
+        v0 = next((v for v in C.kids(init) if v["kind"] == "VarDecl"), None)
+        if v0 is not None and C.kids(v0):
+            try:
+                first = _const_or_none(ex.expr(C.kids(v0)[-1], State()))
+            except Unsupported:
+                first = None
     st = State()
     st.env[rv] = Rat(Poly.var(rv))
     st.env[hco] = Ptr("H", 0)
@@ -712,17 +744,37 @@ def r3_hydrogen_value(ctx):
     sk = var("%s[%s]" % (skip, rv))
     zero = Rat(Poly.const(0))
     seen = {"on_N": 0, "oriented": 0, "skipped": 0}
+    def slot_ok(store_off, adv):
+        """residue ri of the loop writes the four floats at 4*ri: with the pointer at e0 on entry (first iteration ri = first), advancing by a per
+        iteration, and the store at store_off from the pointer:  e0 + a (ri - first) + store_off == 4 ri  for every ri"""
+        if e0 is None or first is None or not isinstance(adv, Ptr):
+            return False
+        a = adv.off if isinstance(adv.off, Rat) else Rat(Poly.const(adv.off))
+        if a.const_value() is None:
+            return False
+        if store_off is None:
+            return True
+        return Rat(Poly.const(e0)) + a * (ri - first) + store_off == 4 * ri
+    advs = set()
     for o in outs:
-        H = [o.env.get(("H", k)) for k in range(3)]
+        stored = {}
+        for k_, v_ in o.env.items():
+            if isinstance(k_, tuple) and len(k_) == 2 and k_[0] == "H":
+                off_ = Rat(Poly.const(k_[1])) if isinstance(k_[1], int) else _SV.OFFVALS.get(k_[1])
+                if off_ is not None:
+                    stored[k_[1]] = (off_, v_)
+        base_off = next((off_ for off_, v_ in stored.values() if not any((off_ - 1) == o2 for o2, _ in stored.values())), None)
+        H = [next((v_ for off_, v_ in stored.values() if base_off is not None and off_ == base_off + k), None) for k in range(3)]
         adv = o.env.get(hco)
-        ok_adv = isinstance(adv, Ptr) and adv.off == 4
+        advs.add(repr(getattr(adv, "off", None)))
+        ok_adv = slot_ok(base_off, adv)
         facts = []
         for (cv, pol), (txt, _p) in zip(o.cexprs, o.cvals):
             facts += elementary_facts(ex, cv if cv is not None else txt, pol)
         shown = [(t[:50], p_) for t, p_ in o.cvals]
         if all(h is None for h in H):
             seen["skipped"] += 1
-            ctx.decide(ok_adv and has_fact(facts, "!=", sk), "C14-R3", C.line(fn), GEO, "ks_assign_hydrogens", "skipped residue: nothing stored, pointer advances by 4", "", "path %s stores nothing%s" % (shown, "" if ok_adv else " and leaves the output pointer at %r" % (adv,)))
+            ctx.decide(ok_adv and has_fact(facts, "!=", sk), "C14-R3", C.line(fn), GEO, "ks_assign_hydrogens", "skipped residue: nothing stored, the slots of the later residues stay in step", "", "path %s stores nothing%s" % (shown, "" if ok_adv else " and leaves the output pointer at %r" % (adv,)))
         elif all(H[k] is not None and H[k] == N[k] for k in range(3)):
             seen["on_N"] += 1
             ors = [f for f in facts if f[0] == "or"]
@@ -736,4 +788,5 @@ def r3_hydrogen_value(ctx):
             ok = ok and has_fact(facts, "==", sk) and has_fact(facts, "<=", zero - pc) and has_fact(facts, "<=", zero - po)
             ctx.decide(ok, "C14-R3", C.line(fn), GEO, "ks_assign_hydrogens", "H = N + 0.1 nm * (C' - O')/|C' - O'| of the previous residue", "",
                        "the hydrogen position on path %s is %s" % (shown, repr(H[0])[:160]))
-    ctx.decide(seen == {"on_N": 1, "oriented": 1, "skipped": 1}, "C14-R3", C.line(fn), GEO, "ks_assign_hydrogens", "three paths: skipped / H on N / H along the previous C=O", "", "paths found: %s" % seen)
+    ctx.decide(seen == {"on_N": 1, "oriented": 1, "skipped": 1} and len(advs) == 1, "C14-R3", C.line(fn), GEO, "ks_assign_hydrogens", "three paths: skipped / H on N / H along the previous C=O; residue ri is stored at hcoords[4 ri]", "",
+               "paths found: %s; the output pointer moves by %s per iteration" % (seen, sorted(advs)))
